@@ -42,6 +42,8 @@ def extra(report, env):
         if bad and len(fails) < 5:
             fails.append({'date': d.isoformat(), 'detail': bad})
         prev = s
+        if d == last:
+            break                      # 9999-12-31 + 1 day does not exist
         d += one
     for _ in range(20000 if env['tier'] == 'quick' else 200000):
         dt = d0 + datetime.timedelta(days=rng.randrange(0, 2958000), milliseconds=rng.randrange(0, 86400000))
